@@ -1,10 +1,13 @@
 """C07 — byte sequences behave as a flat zero-extended byte array.
 
-Obligations: Props/C07.vo (theorems about Model/ByteVecModel.v + Model/ByteVecHeapModel.v
-against Spec/ByteVecSpec.v), lint.  Tie X-C07: operation sequences over a small store of
-real halmos.bytevec.ByteVec objects vs the extracted heap-level model (after EVERY step,
-for EVERY live object: raised?, len, recursive chunk layout, flat content) vs an
-independent Python flat-array reference (value semantics).
+Obligations: Props/C07.vo (theorems about Model/ByteVecModel.v + Model/ByteVecHeapModel.v + Model/MemOpsModel.v
+against Spec/ByteVecSpec.v + Spec/MemSpec.v, re-checked against Gen/GenByteVecSugar.v, GenMemWire.v, GenCodeSlice.v
+regenerated from bytevec.py / sevm.py / contract.py), lint.
+Tie X-C07: operation sequences over a small store of real halmos.bytevec.ByteVec objects vs the extracted heap-level
+model (after EVERY step, for EVERY live object: raised?, len, recursive chunk layout, flat content) vs an independent
+Python flat-array reference (value semantics).
+Tie X-C07-mem (harness/c07_mem.py): the real SEVM on hand-assembled programs of memory instructions, message calls and
+a path fork vs the extracted MemOpsModel vs an independent Python rendering of the EVM memory semantics.
 """
 import functools
 import hashlib
@@ -12,11 +15,13 @@ import itertools
 import os
 from multiprocessing import Pool
 
-from harness import common
+from harness import c07_mem, common
 from harness.common import Model
 
 PID = "C07"
-TRANSLATORS = []
+# T-bvsugar: bounds of the __setitem__/__getitem__ slice sugar (bytevec.py); T-memwire: offset/size wiring of the memory
+# instructions, State.mslice/set_mslice, calldata_slice, copy_returndata_to_memory (sevm.py); T-codeslice: Contract.slice
+TRANSLATORS = ["T-bvsugar", "T-memwire", "T-codeslice"]
 # Genuine defects found on the unchanged tree.  Until the coordinator moves an entry to
 # known_findings.json (or repairs halmos), a failing input whose sig matches is printed as
 # KNOWN-FINDING and recorded in the evidence instead of failing the run; any other
@@ -25,14 +30,18 @@ KNOWN = common.known_for("C07")  # entries live in /verif/known_findings.json
 
 PARTIAL = (
     "CPython aliasing outside the modelled object store (two Exec objects holding the same ByteVec by reference) "
-    "is not expressible in the model; ByteVec.concretize, __eq__, __setitem__/__getitem__ sugar and the int/bool "
-    "conversions of set_word / unbox_int of get_word are exercised by the run (value forms) but not modelled beyond "
-    "the bytes they denote; z3's simplify/Concat/Extract are trusted to preserve denotation"
+    "is not expressible in the model; ByteVec.concretize, __eq__ and the int/bool conversions of set_word / unbox_int of "
+    "get_word are exercised by the runs (value forms) but not modelled beyond the bytes they denote; z3's "
+    "simplify/Concat/Extract are trusted to preserve denotation, and the kind (bytes vs BitVecRef) z3 gives a symbolic "
+    "chunk whose bytes are all constant is not modelled (compared modulo that); the memory-instruction layer does not "
+    "model the MAX_MEMORY_SIZE guards (OutOfGasError), symbolic offsets / sizes (NotConcreteError) and the "
+    "symbolic-offset branch of CODECOPY; the SEVM runs observe the END state of every reported path, not every step"
 )
 ASSUMPTIONS = [
     "values handed to a mutator are never the receiver object itself (v.set_slice(a, b, v) iterates a dict it mutates)",
     "isolation theorem proviso: an object that some dict references as a nested chunk (stored whole by the aligned fast path of set_slice) is not mutated afterwards; shown necessary by C07_alias_refuted and reproduced on the real code by the alias probe; in sevm.py only copy_returndata_to_memory passes a ByteVec that something else still references (the callee's returndata, never mutated afterwards)",
     "the extracted model and driver are faithful to the Coq definitions (extraction is trusted)",
+    "the three translators render the Python expressions they accept faithfully (translate/pyexpr.py; py_or / py_if_not_none in the generated header are Python's `x or d` / `x if x is not None else d` on int-or-None)",
 ]
 ALIAS_NOTE = "aligned set_slice(a, b, w) with w a ByteVec stores w itself; a later w.set_byte shows through the holder and every copy() of it"
 
@@ -114,6 +123,10 @@ def spec_run(case):
         elif k in ("setslice", "setword"):
             r = st[1]
             a, b, val = (st[2], st[3], st[4]) if k == "setslice" else (st[2], st[2] + 32, st[3])
+            if k == "setslice" and len(st) > 6:
+                # slice assignment with omitted bounds: an omitted start is 0, an omitted stop the current length
+                a = 0 if "start" in st[6] else a
+                b = len(objs[r]) if "stop" in st[6] else b
             objs[r], raised = fa_set_slice(objs[r], a, b, spec_val(objs, val))
             out.append(("step", raised, [list(o) for o in objs]))
         elif k == "get":
@@ -321,8 +334,10 @@ def impl_run_inner(case):
                     else:
                         objs[r].set_byte(off, v)
                 elif k == "setslice":
-                    if len(st) > 5 and st[5] == "setitem" and st[3]:
-                        objs[st[1]][st[2]:st[3]] = mkval(objs, st[4], k)
+                    if len(st) > 5 and st[5] == "setitem":
+                        omit = st[6] if len(st) > 6 else ""
+                        key = slice(None if "start" in omit else st[2], None if "stop" in omit else st[3])
+                        objs[st[1]][key] = mkval(objs, st[4], k)
                     elif len(st) > 5 and st[5] == "state":
                         from halmos.sevm import State
                         State(stack=[], memory=objs[st[1]]).set_mslice(st[2], mkval(objs, st[4], k))
@@ -373,6 +388,8 @@ def enc_case(case):
             out += [3, st[1]] + enc_val(st[2])
         elif k == "setbyte":
             out += [4, st[1], st[2], 1 if st[3] >= SYM_BASE else 0, st[3]]
+        elif k == "setslice" and len(st) > 6:
+            out += [10, st[1], 0 if "start" in st[6] else 1, st[2], 0 if "stop" in st[6] else 1, st[3]] + enc_val(st[4])
         elif k == "setslice":
             out += [5, st[1], st[2], st[3]] + enc_val(st[4])
         elif k == "setword":
@@ -618,7 +635,13 @@ class Gen:
         form = r.choice(["call", "call", "setitem"])
         if b >= a and n == b - a and v[0] != "leaf" and r.random() < 0.5:
             form = "state"  # State.set_mslice(loc, data)
-        self.steps.append(["setslice", o, a, b, v, form])
+        step = ["setslice", o, a, b, v, form]
+        if form == "setitem":
+            # bv[a:b] = v, bv[:b] = v, bv[a:] = v, bv[:] = v (a bound is omitted only where that means the same)
+            omit = ("start" if a == 0 and r.random() < 0.5 else "") + ("stop" if b == self.len[o] and r.random() < 0.7 else "")
+            if omit:
+                step.append(omit)
+        self.steps.append(step)
         if b > a and n == b - a:
             self.len[o] = max(self.len[o], b)
 
@@ -795,6 +818,8 @@ def classify(case, impl):
         if st[0] in ("setslice", "setword") and prev is not None and not o[1]:
             a, b = (st[2], st[3]) if st[0] == "setslice" else (st[2], st[2] + 32)
             ln, lay, _ = prev[st[1]]
+            if st[0] == "setslice" and len(st) > 6:
+                kinds.add("setitem-omitted-bound")
             top = top_chunks(lay)
             if a == b:
                 kinds.add("noop")
@@ -851,8 +876,8 @@ def top_chunks(lay):
 
 
 def setitem_probe(rep, exe):
-    """bv[start:stop] = bytes over a grid of optional bounds; implementation vs model (must agree,
-    defect included) vs flat slice assignment (deviations are failing inputs)."""
+    """bv[start:stop] = bytes over a grid of optional bounds (omitted, explicit 0, inside, at and beyond the end):
+    implementation vs flat slice assignment with optional bounds (deviations are failing inputs) vs model."""
     from halmos.bytevec import ByteVec
 
     cases = []
@@ -866,6 +891,7 @@ def setitem_probe(rep, exe):
         calls.append(("c07_setitem", [0 if start is None else 1, start or 0, 0 if stop is None else 1, stop or 0, len(init)] + init + [len(val)] + val))
     model = Model(exe).batch(calls) if exe is not None else None
     known_hits = {}
+    nbad = 0
     for i, (init, start, stop, val) in enumerate(cases):
         case = {"tag": "setitem", "init": init, "start": start, "stop": stop, "value": val}
         bv = ByteVec(bytes(init)) if init else ByteVec()
@@ -884,33 +910,106 @@ def setitem_probe(rep, exe):
         want = (sr, sl)
         rep.case(case, nontrivial=bool(init) and a < b)
         rep.count("tag", "setitem")
+        rep.count("setitem_bounds", ("start-omitted" if start is None else "start-0" if start == 0 else "start>0") + "/" + ("stop-omitted" if stop is None else "stop-0" if stop == 0 else "stop>0"))
         if got != want:
-            sig = {"observable": "setitem-explicit-stop-0" if stop == 0 else "setitem", "op": "setitem"}
+            nbad += 1
+            sig = {"observable": "setitem", "op": "setitem", "start": "omitted" if start is None else start, "stop": "omitted" if stop is None else stop}
             k = next((k for k in KNOWN if common.finding_matches(k, {"sig": sig})), None)
             what = f"ByteVec({bytes(init)!r})[{start}:{stop}] = {bytes(val)!r}: implementation (raised, content) = {got}, flat slice assignment = {want}"
             if k is not None:
                 known_hits.setdefault(k["id"], []).append(case)
-            else:
+            elif nbad <= 5:
                 rep.fail("failing-input", what, case={"case": case, "implementation": got, "spec": want}, sig=sig)
-            # the model must reproduce the defect
+            continue
         if model is not None:
             m = model[i]
             mgot = (bool(m[0]), m[2:2 + m[1]]) if m else None
             if mgot != (bool(got[0]), got[1]) or (got[0] not in (False, True)):
-                rep.fail("broken-tie", f"model and implementation disagree on {case}: implementation {got}, model {mgot}", case={"case": case})
-    # the witness of C07_setitem_refuted must still show on the implementation
-    bv = ByteVec(bytes([1, 2, 3, 4]))
-    try:
-        bv[2:0] = bytes([8, 9])
-        w = list(bv.unwrap())
-    except Exception as e:  # noqa: BLE001
-        w = type(e).__name__
-    if w != [1, 2, 8, 9]:
-        rep.fail("broken-tie", f"the witness of C07_setitem_refuted no longer shows on the implementation (got {w}): the model of __setitem__ is stale", case={"witness": w})
+                nbad += 1
+                if nbad <= 5:
+                    rep.fail("broken-tie", f"model and implementation disagree on {case}: implementation {got}, model {mgot}", case={"case": case})
+    # the read sugar bv[start:stop] on the same grid of bounds
+    gcases = [(init, start, stop) for init in ([], [1, 2, 3, 4]) for start in (None, 0, 1, 2, 4, 5) for stop in (None, 0, 1, 2, 4, 6)]
+    gmodel = Model(exe).batch([("c07_getitem", [0 if a is None else 1, a or 0, 0 if b is None else 1, b or 0, len(init)] + init)
+                               for init, a, b in gcases]) if exe is not None else None
+    for i, (init, start, stop) in enumerate(gcases):
+        case = {"tag": "getitem", "init": init, "start": start, "stop": stop}
+        bv = ByteVec(bytes(init)) if init else ByteVec()
+        try:
+            u = bv[slice(start, stop)].unwrap()
+            got = list(u) if isinstance(u, bytes) else str(u)
+        except Exception as e:  # noqa: BLE001
+            got = f"{type(e).__name__}"
+        want = fa_slice(list(init), 0 if start is None else start, len(init) if stop is None else stop)
+        rep.case(case, nontrivial=bool(init))
+        rep.count("tag", "getitem")
+        if got != want:
+            nbad += 1
+            if nbad <= 5:
+                rep.fail("failing-input", f"ByteVec({bytes(init)!r})[{start}:{stop}] = {got}, flat slice read = {want}",
+                         case={"case": case, "implementation": got, "spec": want}, sig={"observable": "getitem", "op": "getitem"})
+            continue
+        if gmodel is not None:
+            m = gmodel[i]
+            if not m or m[1:1 + m[0]] != got:
+                nbad += 1
+                if nbad <= 5:
+                    rep.fail("broken-tie", f"model and implementation disagree on {case}: implementation {got}, model {m}", case={"case": case})
     for kid, hits in known_hits.items():
         k = next(k for k in KNOWN if k["id"] == kid)
         print(f"KNOWN-FINDING: property={PID} {kid}: {k['what']}")
     rep.coverage["known_findings_in_module"] = {kid: {"hits": len(h), "example": h[0]} for kid, h in known_hits.items()}
+
+
+def mem_layer(rep, exe, r, tier):
+    """the real SEVM on programs of memory instructions and message calls vs the EVM semantics on flat arrays
+    (failing inputs) vs the extracted Model/MemOpsModel.v (memory length, chunk layout, content, returndata, MSIZE)"""
+    cases = c07_mem.gen_cases(r, 300 if tier == "quick" else 4000)
+    built = [c07_mem.build(c) for c in cases]
+    impl = [c07_mem.impl_run(c) for c in cases]
+    model = None
+    vs = [c07_mem.variants(c) for c in cases]
+    if exe is not None:
+        calls, owner = [], []
+        for i, (c, (a, cc)) in enumerate(zip(cases, built)):
+            for v in vs[i]:
+                calls.append(("c07_mem", c07_mem.enc_case(c, a, cc, v)))
+                owner.append(i)
+        res = Model(exe).parallel_batch(calls)
+        model = [[] for _ in cases]
+        for i, x in zip(owner, res):
+            model[i].append(c07_mem.dec_model(x))
+        # the code a creation deploys (only where the instruction sequence reaches the creation)
+        cr_in = [(i, c07_mem.enc_created(c, a, cc)) for i, (c, (a, cc)) in enumerate(zip(cases, built))
+                 if c07_mem.spec_created(c, a, cc) is not None]
+        cr_res = Model(exe).batch([("c07_created", x) for _, x in cr_in]) if cr_in else []
+        model_created = {i: c07_mem.dec_created(cases[i], m) for (i, _), m in zip(cr_in, cr_res)}
+    nfi = nbt = 0
+    for i, (c, (acc, cc)) in enumerate(zip(cases, built)):
+        kinds = c07_mem.classify(c)
+        for k in kinds:
+            rep.count("mem_case_kind", k)
+        rep.count("mem_outcome", "+".join(x[0] for x in impl[i]) if isinstance(impl[i], list) else impl[i][0])
+        rep.count("tag", c["tag"])
+        rep.case(c, nontrivial=(isinstance(impl[i], list) or impl[i][0] == "ok") and len(c["ops"]) >= 2)
+        d = c07_mem.compare_spec(c, impl[i], [c07_mem.spec_run(c, acc, cc, v) for v in vs[i]])
+        if d is None:
+            d = c07_mem.compare_created(impl[i], c07_mem.spec_created(c, acc, cc), "spec")
+        if d is not None:
+            nfi += 1
+            if nfi <= 6:
+                rep.fail("failing-input", f"SEVM memory disagrees with the flat EVM memory after {c['ops']} (calldata {c['calldata']}, fork {c.get('fork')}): {d}",
+                         case={"mem_case": c, **d}, sig={"observable": "mem-" + d["observable"], "op": "memops"})
+            continue
+        if model is not None:
+            d = c07_mem.compare_model(c, impl[i], model[i])
+            if d is None and i in model_created:
+                d = c07_mem.compare_created(impl[i], model_created[i], "model") if model_created[i][0] != "exc" else {"observable": "deployed-code", "model": model_created[i][1]}
+            if d is not None:
+                nbt += 1
+                if nbt <= 4:
+                    rep.fail("broken-tie", f"MemOpsModel and SEVM disagree (flat reference agrees with SEVM) after {c['ops']}: {d}", case={"mem_case": c, **d})
+    rep.coverage["mem_layer_cases"] = len(cases)
 
 
 def short(case):
@@ -950,7 +1049,7 @@ def run(rep, tier):
     if exe is not None:
         res = Model(exe).parallel_batch([("c07_run", enc_case(c)) for c in allcases])
         model_res = [dec_model(c, x) for c, x in zip(allcases, res)]
-    nbad = 0
+    nfi = nbt = 0   # failing inputs and broken ties are capped separately: a flood of layout differences must not hide a failing input
     for i, c in enumerate(cases):
         kinds = classify(c, impl[i])
         for k in kinds or ["plain"]:
@@ -960,8 +1059,8 @@ def run(rep, tier):
         rep.case(short(c), nontrivial=bool(kinds & {"general", "aligned", "aligned-nested", "setbyte-inside", "overlapping-self-copy", "split-nested"}))
         d = compare_spec(c, impl[i], spec_run(c))
         if d is not None:
-            nbad += 1
-            if nbad <= 10:
+            nfi += 1
+            if nfi <= 8:
                 st = c["steps"][d["step"]] if d["step"] < len(c["steps"]) else None
                 rep.fail("failing-input", f"ByteVec disagrees with the flat zero-extended array at step {d['step']} {st} of {str(c['steps'])[:400]}: {d}",
                          case={"case": c, **d}, sig={"observable": d["observable"], "op": st[0] if st else None})
@@ -969,10 +1068,11 @@ def run(rep, tier):
         if model_res is not None:
             d = compare_model(c, impl[i], model_res[i])
             if d is not None:
-                nbad += 1
-                if nbad <= 10:
+                nbt += 1
+                if nbt <= 5:
                     rep.fail("broken-tie", f"model and implementation disagree (flat reference agrees with implementation) at step {d['step']} of {str(c['steps'])[:400]}: {d}", case={"case": c, **d})
     setitem_probe(rep, exe)
+    mem_layer(rep, exe, r, tier)
     # alias probe: model must predict what the implementation does; deviation from value semantics recorded
     pi = len(cases)
     dspec = compare_spec(probe, impl[pi], spec_run(probe))
@@ -992,16 +1092,27 @@ def run(rep, tier):
     rep.coverage["exhaustive"] = True
     rep.coverage["exhaustive_note"] = exh_note
     return rep.finish(
-        checker_cmd="make -C coq Props/C07.vo (coq_makefile, coqc 8.16.1); no generated files",
+        checker_cmd="make -C coq Props/C07.vo (coq_makefile, coqc 8.16.1); Gen/GenByteVecSugar.v, GenMemWire.v, GenCodeSlice.v regenerated from /repo first",
         trusted_base=common.TRUSTED_BASE_COMMON,
         assumptions=ASSUMPTIONS,
         partial=PARTIAL,
-        rule="cases = sequences of steps over a store of ByteVec objects (new, copy, slice kept as object, append, set_byte, set_slice, set_word; values = bytes / BitVecVal / int / HalmosBitVec / fresh z3 symbols / Chunk windows into longer data / slices of the receiver or of another object / a whole ByteVec object), followed by get_byte on a grid, unwrap and get_word of every object; corpus, exhaustive short sequences, then seeded random sequences over per-case sub-grids of [0,1,2,30,31,32,33,63,64,65] so that writes land exactly on existing chunk boundaries. After EVERY step EVERY live object is compared (raised?, len, recursive chunk layout [(key,len,kind,start,data_len)], flat content; symbolic bytes by identity, else under 2 valuations) with the extracted heap model and with the flat reference. Generated cases respect the isolation proviso (an object passed whole is never a receiver afterwards). Non-trivial = some write took the aligned or general path of set_slice, split a chunk with set_byte, or was an overlapping self copy; distinct by hash of the step list",
+        rule="(1) ByteVec store: cases = sequences of steps over a store of ByteVec objects (new, copy, slice kept as object, append, set_byte, set_slice, set_word; values = bytes / BitVecVal / int / HalmosBitVec / fresh z3 symbols / Chunk windows into longer data / slices of the receiver or of another object / a whole ByteVec object; plain calls, the __setitem__ sugar with explicit and omitted bounds, the State wrappers of sevm.py), followed by get_byte on a grid, unwrap and get_word of every object; corpus, exhaustive short sequences, then seeded random sequences over per-case sub-grids of [0,1,2,30,31,32,33,63,64,65] so that writes land exactly on existing chunk boundaries. After EVERY step EVERY live object is compared (raised?, len, recursive chunk layout [(key,len,kind,start,data_len)], flat content; symbolic bytes by identity, else under 2 valuations) with the extracted heap model and with the flat reference. Generated cases respect the isolation proviso (an object passed whole is never a receiver afterwards). Non-trivial = some write took the aligned or general path of set_slice, split a chunk with set_byte, or was an overlapping self copy. (2) slice sugar: bv[start:stop] = bytes and bv[start:stop] over a grid of optional bounds (omitted, explicit 0, inside, at and beyond the end). (3) memory instructions: programs assembled from 1..7 of MSTORE (PUSH32 or CALLDATALOAD value) / MSTORE8 / MLOAD+MSTORE / CALLDATACOPY / CODECOPY / EXTCODECOPY (account with code, with empty code, without account) / RETURNDATACOPY (in bounds, at the end, beyond) / MCOPY (overlapping) / message calls (STATICCALL, CALL, DELEGATECALL, CALLCODE; callee = 0..3 instructions then RETURN or REVERT of a window of its memory, possibly halting; output area smaller / equal / larger than the returned data) / at most one creation (CREATE, CREATE2: the init code = 0..3 instructions then RETURN or REVERT is first written to memory with MSTOREs; it reads its EMPTY calldata and its own code), optionally a JUMPI on the symbolic CALLVALUE forking the path (often on a still empty memory) and a final RETURN / REVERT; calldata = concrete bytes and z3 symbols; offsets and sizes from a grid around 0, 32, 64 and the current ends. The real SEVM runs the program; for every reported path the final memory (length, recursive chunk layout, content), the returndata buffer, MSIZE, the output data and the code of the account a creation deployed are compared with the flat EVM semantics (failing input) and with the extracted MemOpsModel (broken tie). Non-trivial = the path ran to its end through >= 2 instructions; distinct by hash of the case",
     )
 
 
 def replay(rep, body):
     for f in body.get("failures", []):
+        mc = (f.get("case") or {}).get("mem_case")
+        if mc:
+            acc, cc = c07_mem.build(mc)
+            impl = c07_mem.impl_run(mc)
+            spec = [c07_mem.spec_run(mc, acc, cc, v) for v in c07_mem.variants(mc)]
+            print("memory case:", mc)
+            print("program:", acc[c07_mem.THIS].hex())
+            print("implementation:", str(impl)[:600])
+            print("flat EVM memory:", str(spec)[:600])
+            print("spec-vs-implementation:", c07_mem.compare_spec(mc, impl, spec))
+            continue
         case = (f.get("case") or {}).get("case")
         if case:
             print("steps:", case["steps"])
